@@ -233,6 +233,19 @@ func (t *SchedTracer) observe(ctx string, hold *deferKey) []string {
 				t.emit("fork %d %d", ni, fi)
 				changed = true
 			}
+		}
+		if ctx == "D" {
+			// the real fork list of the new incarnation, in list order (model indices)
+			var sb strings.Builder
+			fmt.Fprintf(&sb, "forkorder %d", ni)
+			for pos, f := range c.forks {
+				fi, _ := t.modelFork(n, pos, f.id)
+				fmt.Fprintf(&sb, " %d", fi)
+			}
+			t.emit("%s", sb.String())
+		}
+		for pos, f := range c.forks {
+			fi, _ := t.modelFork(n, pos, f.id)
 			pf := p.byIx[fi]
 			if len(f.chunks) != len(pf.chunks) {
 				t.emit("mkchunks %d %d %d", ni, fi, len(f.chunks))
@@ -240,7 +253,13 @@ func (t *SchedTracer) observe(ctx string, hold *deferKey) []string {
 			}
 			out := func(obj string, prevO, curO objSnap) {
 				add, rem := objDiff(prevO, curO)
-				if ctx == "D" && len(rem) > 0 {
+				stateLost := false
+				for _, s := range rem {
+					if s != "queued_locally" {
+						stateLost = true
+					}
+				}
+				if ctx == "D" && stateLost {
 					t.emit("reset %d %d %s", ni, fi, obj)
 					changed = true
 					// after a reset whatever is there now was written afresh
